@@ -142,8 +142,14 @@ pub fn current_case() -> (usize, u64) {
 pub fn violation(sub: &str, input: &str, expected: &str, actual: &str) {
     count!("violations");
     bump_named(&format!("violations.{sub}"), 1);
-    let n = VIOLATIONS_PRINTED.fetch_add(1, Ordering::Relaxed);
-    if n < 12 || REPLAY_MODE.load(Ordering::Relaxed) == 1 {
+    let n = {
+        static PER_SUB: Mutex<BTreeMap<String, usize>> = Mutex::new(BTreeMap::new());
+        let mut m = PER_SUB.lock().unwrap();
+        let e = m.entry(sub.to_owned()).or_insert(0);
+        *e += 1;
+        *e - 1
+    };
+    if n < 3 || REPLAY_MODE.load(Ordering::Relaxed) == 1 {
         let (s, c) = current_case();
         let v = json!({"sub": sub, "sweep_index": s, "case": c, "input": clip(input, 4000),
             "expected": clip(expected, 4000), "actual": clip(actual, 4000)});
@@ -774,11 +780,9 @@ fn finish(prop: &dyn Prop, tier: Tier, seed: u64, mut m: Merged, start: Instant)
         let mut written = 0;
         for v in &m.violations {
             let sub = v.get("sub").and_then(Value::as_str).unwrap_or("?").to_owned();
-            if !seen_sub.insert(sub.clone()) && written >= 5 {
+            let fresh = seen_sub.insert(sub.clone());
+            if (!fresh && written >= 6) || written >= 14 {
                 continue;
-            }
-            if written >= 10 {
-                break;
             }
             let path = format!("{replay_dir}/{id}-{}-{written}.json", tier.name());
             let mut art = v.clone();
